@@ -150,6 +150,37 @@ def table():
     print("\n".join(rows))
 
 
+def design_table():
+    """rewrite the catch table of DESIGN.md section 0.7 from seeded/*/meta.json"""
+    rows, stars = [], []
+    for mf in sorted(glob.glob(os.path.join(SEEDED, "C*", "meta.json"))):
+        m = json.load(open(mf))
+        own = m["breaks_property"]
+        caught = [r for r in m.get("check_runs", []) if r.get("caught")]
+        ownrun = [r for r in caught if r["check"] == own]
+        others = sorted(set(r["check"] for r in caught if r["check"] != own))
+        if ownrun:
+            fl = ownrun[-1]["first_lines"]
+            star = "*" if (fl and "no-failing-input-found" in fl[0]) else ""
+            if star:
+                stars.append(m["name"])
+            msg = (fl[1] if len(fl) > 1 else "").replace("  -> ", "").replace("|", "/")[:150]
+            by = own + star + ((", " + ", ".join(others)) if others else "")
+        else:
+            msg, by = "NOT CAUGHT by its own check", ", ".join(others) or "-"
+        t = m["confirmation"]["confirmed_at"]
+        rnd = m.get("round") or (1 if t < "2026-10-01T05" else 2 if t < "2026-10-01T08" else 3 if t < "2026-10-01T10" else 4 if t < "2026-10-01T13" else 5)
+        rows.append("| %s | %s | %d | %s | %s |" % (m["name"], own, rnd, by, msg))
+    hdr = ("| seeded change (seeded/<name>/) | breaks | round | caught by (quick tier; * = reported without a failing input) | "
+           "what the property's own check printed |\n|---|---|---|---|---|\n")
+    p = os.path.join(V, "DESIGN.md")
+    s = open(p).read()
+    a = s.index("| seeded change (seeded/<name>/) | breaks |")
+    b = s.index("### 0.6 Trusted base")
+    open(p, "w").write(s[:a] + hdr + "\n".join(rows) + "\n\n" + s[b:])
+    print(len(rows), "rows; without a failing input:", stars, "; not caught:", [r.split("|")[1].strip() for r in rows if "NOT CAUGHT" in r])
+
+
 if __name__ == "__main__":
     a = sys.argv[1:]
     if a and a[0] == "confirm":
@@ -164,5 +195,8 @@ if __name__ == "__main__":
         sys.exit(run(a[1], tier, props))
     if a and a[0] == "table":
         table()
+        sys.exit(0)
+    if a and a[0] == "design-table":
+        design_table()
         sys.exit(0)
     print(__doc__)
